@@ -71,6 +71,87 @@ pub fn dispatch(args: &[String]) -> Option<i32> {
             }
             Some(0)
         }
+        "fuzz-replay" => {
+            // vcheck fuzz-replay <Cxx> <target> <artifact>: re-execute a libFuzzer artifact through the plain path
+            let (id, target, path) = (args[1].as_str(), args[2].as_str(), args[3].as_str());
+            let data = match std::fs::read(path) {
+                Ok(d) => d,
+                Err(e) => {
+                    eprintln!("cannot read {}: {}", path, e);
+                    return Some(2);
+                }
+            };
+            let mut st = crate::engine::Stats::default();
+            st.frozen = true;
+            let mut results: Vec<(&str, &str, serde_json::Value, Result<(), crate::engine::Failure>)> = vec![];
+            match target {
+                "ops_c06" => {
+                    let pool = crate::fuzzdec::decode_pool(&data);
+                    let r = crate::engine::guard(|| crate::props::c06::check_pool(&pool, &mut st)).unwrap_or_else(|p| Err(crate::engine::Failure::new("panic", p)));
+                    results.push(("C06", "pools", serde_json::json!(pool), r));
+                }
+                "range_ast_c01" => {
+                    if let Some(case) = crate::fuzzdec::decode_ast_case(&data) {
+                        let r = crate::engine::guard(|| crate::props::c01::check_case(&case, &mut st)).unwrap_or_else(|p| Err(crate::engine::Failure::new("panic", p)));
+                        results.push(("C01", "ast", serde_json::to_value(&case).unwrap(), r));
+                    }
+                }
+                "version_text_c05_c17" => {
+                    let s = crate::fuzzdec::decode_text(&data);
+                    let r5 = crate::engine::guard(|| crate::props::c05::check_string(&s, &mut st)).unwrap_or_else(|p| Err(crate::engine::Failure::new("panic", p)));
+                    results.push(("C05", "text", serde_json::json!(s), r5));
+                    let r17 = crate::engine::guard(|| crate::props::c17::check_string(&s, &mut st)).unwrap_or_else(|p| Err(crate::engine::Failure::new("panic", p)));
+                    results.push(("C17", "text", serde_json::json!(s), r17));
+                }
+                _ => {
+                    eprintln!("unknown target {}", target);
+                    return Some(2);
+                }
+            }
+            let mut rc = 2; // artifact that does not reproduce: inconclusive
+            let mut any_fail = false;
+            for (prop, campaign, case, r) in results {
+                if let Err(f) = r {
+                    any_fail = true;
+                    let dir = format!("{}/work/replays", crate::findings::verif_dir());
+                    let _ = std::fs::create_dir_all(&dir);
+                    let out = format!("{}/{}-fuzz-{}-{}.json", dir, prop, f.check, crate::engine::hash_of(&data) % 100000);
+                    let body = serde_json::json!({"property": prop, "campaign": campaign, "check": f.check, "message": f.message, "case": case, "origin": format!("libFuzzer {} {}", target, path)});
+                    let _ = std::fs::write(&out, serde_json::to_string_pretty(&body).unwrap());
+                    eprintln!("[{}] fuzz / {}: {}", prop, f.check, f.message);
+                    // report under the property the relation belongs to; the invoking check owns the exit code
+                    println!("VIOLATION property={} replay={}", prop, out);
+                    if prop == id || (id == "C05" && prop == "C17") || (id == "C17" && prop == "C05") {
+                        rc = 1;
+                    } else {
+                        rc = 1;
+                    }
+                }
+            }
+            if !any_fail {
+                eprintln!("[{}] fuzz artifact {} does not reproduce through the plain replay path (inconclusive)", id, path);
+            }
+            Some(rc)
+        }
+        "fuzz-evidence" => {
+            // vcheck fuzz-evidence <Cxx> <target> <execs> <corpus> <cov> <jobs> <runs>: merge into the evidence file
+            let id = args[1].as_str();
+            let path = format!("{}/evidence/{}.json", crate::findings::verif_dir(), id);
+            let mut v: serde_json::Value = match std::fs::read_to_string(&path).ok().and_then(|s| serde_json::from_str(&s).ok()) {
+                Some(v) => v,
+                None => return Some(2),
+            };
+            let n = |i: usize| args.get(i).and_then(|s| s.parse::<u64>().ok()).unwrap_or(0);
+            let fz = serde_json::json!({"engine": "cargo-fuzz 0.13 / libFuzzer, debug assertions + overflow checks, no sanitizer (no unsafe code in the crate)", "target": args[2], "executed_units": n(3), "corpus_files": n(4),
+                "coverage_edges": n(5), "jobs": n(6), "runs_per_job": n(7), "oracle": "inside the target (same check function as the proptest campaign)"});
+            if let Some(c) = v.get_mut("coverage").and_then(|c| c.as_object_mut()) {
+                c.insert("fuzz".into(), fz);
+                let ev = c.get("evaluations").and_then(|e| e.as_u64()).unwrap_or(0);
+                c.insert("evaluations".into(), serde_json::json!(ev + n(3)));
+            }
+            let _ = std::fs::write(&path, serde_json::to_string_pretty(&v).unwrap());
+            Some(0)
+        }
         _ => None,
     }
 }
